@@ -40,6 +40,16 @@ def main():
     from ethosu.vela.errors import VelaError
 
     rng = ck.rng
+    replay = None
+    if ck.replay_arg:
+        import json
+
+        replay = json.load(open(ck.replay_arg))
+        replay = replay.get("replay", replay)
+    # --replay re-runs only the section the recorded input belongs to
+    only = None
+    if replay is not None:
+        only = "C" if "ops" in replay else "D" if "profile" in replay else "B" if "kinds" in replay else "A"
     accs = list(Accelerator)
     npu_accs = {a: [n for n in api.NpuAccelerator if Accelerator.from_npu_accelerator(n) == a][0] for a in accs}
     archs = {a: create_default_arch(a) for a in accs}
@@ -67,6 +77,8 @@ def main():
 
     reqs, reals, metas = [], [], []
     nA = 6000 if not ck.thorough else 80000
+    if only is not None:
+        nA = 0
     for i in range(nA):
         span = rng.choice([8, 20, 64, 1000])
         a, b = rand_rangeset(rng.choice([0, 1, 2, 3, 6, 12]), span), rand_rangeset(rng.choice([0, 1, 2, 3, 6, 12]), span)
@@ -81,6 +93,8 @@ def main():
     pts = range(5)
     small = [(s, e) for s in pts for e in pts if s < e]
     sets = [()] + [(r,) for r in small] + [tuple(sorted(p)) for p in itertools.combinations_with_replacement(small, 2)]
+    if only is not None:
+        sets = []
     for sa in sets:
         for sb in sets:
             a, b = range_set.RangeSet(ranges=list(sa)), range_set.RangeSet(ranges=list(sb))
@@ -88,7 +102,7 @@ def main():
             reals.append("1" if a.intersects(b) else "0")
             metas.append(("rs-small", len(sa), len(sb)))
     # malformed stream: unsorted lists / empty ranges handed to the sweep directly (never built by the class)
-    for i in range(600):
+    for i in range(600 if only is None else 0):
         la = [(s, s + rng.choice([0, 1, 3, 9])) for s in (rng.randrange(0, 30) for _ in range(rng.randrange(0, 5)))]
         lb = [(s, s + rng.choice([0, 1, 3, 9])) for s in (rng.randrange(0, 30) for _ in range(rng.randrange(0, 5)))]
         a, b = range_set.RangeSet(ranges=list(la)), range_set.RangeSet(ranges=list(lb))
@@ -117,6 +131,22 @@ def main():
         reqs.append("accconf " + " ".join(ta) + " | " + " ".join(tb))
         reals.append("1" if a.conflicts(b) else "0")
         metas.append(("accconf", len(ta), len(tb)))
+    if only == "A" and "request" in replay:
+        rq = replay["request"]
+        toks = rq.split()
+        if toks[0] == "rsintersects":
+            nums = [x for x in toks[1:]]
+            la = [int(x) for x in nums[:nums.index("|")]]
+            lb = [int(x) for x in nums[nums.index("|") + 1:]]
+            a = range_set.RangeSet(ranges=list(zip(la[::2], la[1::2])))
+            b = range_set.RangeSet(ranges=list(zip(lb[::2], lb[1::2])))
+            try:
+                out = "1" if a.intersects(b) else "0"
+            except AssertionError:
+                out = "err:assert"
+            reqs.append(rq)
+            reals.append(out)
+            metas.append(("rs", len(la) // 2, len(lb) // 2))
     outs = ck.model(reqs)
     evaluations += len(reqs)
     disagreeA = [i for i, (m, r) in enumerate(zip(outs, reals)) if m != r]
@@ -178,7 +208,14 @@ def main():
                         mat[i][j] = True
                 for md, mk in ((1, 2), (2, 2), (1, 1), (2, 3)):
                     casesB.append(("".join(kinds), mat, md, mk))
+    if only is not None:
+        casesB = []
+    if only == "B":
+        casesB = [(replay["kinds"], [[bool(x) for x in r] for r in replay["conflicts"]], replay["max_outstanding_dma"],
+                   replay["max_outstanding_kernels"])]
     nB = 20000 if not ck.thorough else 300000
+    if only is not None:
+        nB = 0
     for _ in range(nB):
         n = rng.choice([5, 6, 7, 8, 8, 10, 12, 16, 24])
         kinds = "".join(rng.choice("DK") for _ in range(n))
@@ -220,7 +257,8 @@ def main():
         ck.violation(f"get_wait_dependency and Model/Waits.lean disagree on {len(disagreeB)} inputs, e.g. {reqsB[i][:160]}: code {realsB[i]}, model {outsB[i]}",
                      {"correspondence": "B get_wait_dependency", "request": reqsB[i][:1500], "model": outsB[i], "implementation": realsB[i]},
                      found_input=False)
-    ck.sample({"B_request": reqsB[-1][:200], "model": outsB[-1], "implementation": realsB[-1], "spec": specB[-1]})
+    if reqsB:
+        ck.sample({"B_request": reqsB[-1][:200], "model": outsB[-1], "implementation": realsB[-1], "spec": specB[-1]})
 
     # ------------------------------------------------------------------------------------------
     # C. the public command-stream generator
@@ -263,6 +301,11 @@ def main():
 
     lists = fixed_lists()
     nC = 2400 if not ck.thorough else 24000
+    if only is not None:
+        lists, nC = [], 0
+    if only == "C":
+        acc = [a for a in accs if a.value == replay["accelerator"]][0]
+        lists = [(acc, [c04_gen.rebuild_op(api, d) for d in replay["ops"]], "replay:" + str(replay.get("origin")))]
     for i in range(nC):
         acc = accs[i % len(accs)]
         g = c04_gen.OpGen(rng, api, npu_accs[acc], archs[acc], arena=rng.choice([1 << 12, 1 << 14, 1 << 16]))
@@ -358,7 +401,7 @@ def main():
     import pipe_common
 
     nD = 48 if not ck.thorough else 700
-    outsD = pipe_common.run_corpus(ck, nD, want={"stream": True, "extra": c04_gen.pipeline_extra})
+    outsD = pipe_common.run_corpus(ck, nD, want={"words": True, "extra": c04_gen.pipeline_extra}) if only in (None, "D") else []
     reqsD, ownersD = [], []
     for o in outsD:
         ck.count("D_status_" + str(o.get("status", "harness-exception")))
@@ -366,11 +409,11 @@ def main():
             raise common.InfraError("pipeline worker failed:\n" + o["harness_exception"])
         if o.get("harness_errors"):
             raise common.InfraError("stream_line failed:\n" + o["harness_errors"][0])
-        acc = o["opts"][o["opts"].index("--accelerator-config") + 1]
-        ai = [a.value for a in accs].index(acc)
-        for si, ln in enumerate(o.get("stream_lines", [])):
-            words = [t for t in ln.split() if t.startswith("words=")][0]
-            reqsD.append(f"c04stream acc={ai} explore=10 {words}")
+        if not o.get("cmd_words"):
+            continue
+        ai = [a.value for a in accs].index(o["acc"])
+        for si, ws in enumerate(o["cmd_words"]):
+            reqsD.append(f"c04stream acc={ai} explore=10 words={','.join(str(int(w)) for w in ws)}")
             ownersD.append((o, si))
     ansD = ck.model(reqsD) if reqsD else []
     evaluations += len(reqsD)
